@@ -3277,6 +3277,12 @@ class BatchDataset(Dataset):
                 if item < 0:
                     raise IndexError(item - len(self))
             input_index = item * self.batch_size
+            if (
+                    self.drop_last
+                    and input_index + self.batch_size > len(self.input_dataset)
+            ):
+                # Do not evaluate the examples of the incomplete last batch
+                raise IndexError(item)
             current_batch = []
             for i in range(self.batch_size):
                 try:
